@@ -228,6 +228,15 @@ def m_subset_len(eng, st, callee, a, ty):
     return one(popcount(bitmap_of(eng, sub.f[0]), 64))
 
 
+@model(r"^Writer::<D>::contains_item$")
+def m_contains_item(eng, st, callee, a, ty):
+    """is the item key in the database?  (deleted ids are gone, overwritten ids are still there)"""
+    db = st.env.get("db_items", st.env.get("stored_items"))
+    if db is None:
+        raise Unknown("contains_item without a database item set")
+    return one(mk_ok((db & bit(a[2])) != BV(0, U)))
+
+
 # ------------------------------------------------------------------------------------ geometry (fresh decisions)
 @model(r"^<D as Distance>::side::<R>$")
 def m_side(eng, st, callee, a, ty):
